@@ -100,20 +100,17 @@ theorem handlePacket_stopOk {s s' : RState} {id : Nat} {cid : String} {pkt : Pac
         · simp at h
         · simp only [Except.ok.injEq, Prod.mk.injEq] at h; obtain ⟨_, rfl⟩ := h; exact hp
   | pubrel pkid hpr =>
-    cases hpr with
-    | true => simp only [handlePacket, Except.ok.injEq, Prod.mk.injEq] at h; obtain ⟨_, rfl⟩ := h; exact hp
-    | false =>
-      simp only [handlePacket] at h
-      split at h
-      · simp at h
+    simp only [handlePacket] at h
+    split at h
+    · simp at h
+    · split at h
+      · simp only [Except.ok.injEq, Prod.mk.injEq] at h; obtain ⟨_, rfl⟩ := h; exact fun _ => rfl
       · split at h
+        · simp at h
         · simp only [Except.ok.injEq, Prod.mk.injEq] at h; obtain ⟨_, rfl⟩ := h; exact fun _ => rfl
         · split at h
           · simp at h
-          · simp only [Except.ok.injEq, Prod.mk.injEq] at h; obtain ⟨_, rfl⟩ := h; exact fun _ => rfl
-          · split at h
-            · simp at h
-            · simp only [Except.ok.injEq, Prod.mk.injEq] at h; obtain ⟨_, rfl⟩ := h; exact hp
+          · simp only [Except.ok.injEq, Prod.mk.injEq] at h; obtain ⟨_, rfl⟩ := h; exact hp
   | pubcomp pkid =>
     simp only [handlePacket] at h
     split at h
@@ -163,20 +160,19 @@ theorem handlePackets_append (id : Nat) (cid : String) : ∀ (pre : List Packet)
 theorem handleDisconnection_removes {s s' : RState} {id : Nat} {r : Option String} {c : Conn}
     (hc : getConn s id = some c) (h : handleDisconnection s id r = .ok s') : getConn s' id = none := by
   have hlt := getConn_lt hc
-  unfold handleDisconnection at h
+  rw [handleDisconnection_eq] at h
   simp only [hc] at h
-  cases r <;> (try simp only [] at h) <;> split at h <;>
-    (simp only [Except.ok.injEq] at h; subst h
-     show Slab.get? (Slab.remove s.conns id) id = none
-     simp [Slab.get?, Slab.remove, hlt])
+  refine (wakeParked_frame h).conns.get_none ?_
+  unfold getConn
+  rw [(hdFinal_fields s id c r).1]
+  simp [Slab.get?, Slab.remove, hlt]
 
 theorem handleDisconnection_lastWills {s s' : RState} {id : Nat} {r : Option String}
     (h : handleDisconnection s id r = .ok s') : s'.lastWills = s.lastWills := by
-  unfold handleDisconnection at h
+  rw [handleDisconnection_eq] at h
   split at h
   · simp only [Except.ok.injEq] at h; subst h; rfl
-  · cases r <;> (try simp only [] at h) <;> split at h <;>
-      (simp only [Except.ok.injEq] at h; subst h; rfl)
+  · rw [(wakeParked_wakeFrame h).wills, (hdFinal_fields _ _ _ _).2.1]
 
 /-! ### tracker status -/
 
@@ -276,6 +272,11 @@ theorem drainNotifications_notCaughtup : ∀ (ns : List (Nat × DataRequest)) (j
         exact drainNotifications_notCaughtup rest j h
           (reschedule_notCaughtup j h2 (track_notCaughtup j h1 hn))
 
+theorem wakeTurnMoved_notCaughtup {s s' : RState} (j : Nat) (h : wakeTurnMoved s = .ok s')
+    (hn : NotCaughtup s j) : NotCaughtup s' j :=
+  wakeTurnMoved_rel (fun a b => NotCaughtup a j → NotCaughtup b j) (fun _ h => h) (fun _ _ _ h1 h2 h => h2 (h1 h))
+    (fun _ _ _ _ h => h) (fun _ _ ns h hn => drainNotifications_notCaughtup ns j h hn) (fun _ h => h) h hn
+
 /-! ### the whole event -/
 
 theorem getLink_of_links {s s' : RState} (h : s'.links = s.links) (l : Nat) : getLink s' l = getLink s l := by
@@ -322,7 +323,12 @@ theorem handleDevicePayload_spec {s s' : RState} {id : Nat} {c : Conn} (hc : get
           split at h3
           · exact AckFrame.precomp (drainNotifications_frame _ h3) rfl rfl
           · simp only [Except.ok.injEq] at h3; subst h3; exact AckFrame.refl _
-        have happ3 := (happ.frame_right f2).frame_right f3
+        split at h
+        · simp at h
+        rename_i s3' h4
+        have f4 : AckFrame s3 s3' := wakeTurnMoved_frame h4
+        have hnc4 : NotCaughtup s3 id → NotCaughtup s3' id := wakeTurnMoved_notCaughtup id h4
+        have happ3 := ((happ.frame_right f2).frame_right f3).frame_right f4
         obtain ⟨c3, g3, a3, l3, k3⟩ := happ3.own c hc0
         by_cases hd : fl.disconnect = true
         · simp only [hd, if_true] at h
@@ -337,13 +343,13 @@ theorem handleDevicePayload_spec {s s' : RState} {id : Nat} {c : Conn} (hc : get
           rw [hkall, List.take_length] at hrep
           refine .inr ⟨hrep, ⟨c3, g3, a3, l3, k3⟩, ?_, ?_, ?_, ?_⟩
           · intro l
-            have : getLink s3 l = getLink (setLink s c.link { getLink s c.link with ibuf := [] }) l :=
+            have : getLink s3' l = getLink (setLink s c.link { getLink s c.link with ibuf := [] }) l :=
               getLink_of_links happ3.links l
             rw [this]
             by_cases hl : l = c.link
             · subst hl; rw [getLink_setLink_same]
             · rw [getLink_setLink_ne _ _ _ _ hl]
-          · have : getLink s3 c.link = getLink (setLink s c.link { getLink s c.link with ibuf := [] }) c.link :=
+          · have : getLink s3' c.link = getLink (setLink s c.link { getLink s c.link with ibuf := [] }) c.link :=
               getLink_of_links happ3.links c.link
             rw [this, getLink_setLink_same]
           · intro j hj
@@ -356,6 +362,187 @@ theorem handleDevicePayload_spec {s s' : RState} {id : Nat} {c : Conn} (hc : get
               split at h3
               · exact drainNotifications_notCaughtup _ id h3 hst
               · simp only [Except.ok.injEq] at h3; subst h3; exact hst
-            exact hst3
+            exact hnc4 hst3
+
+/-! ### what the wake-up of parked group members achieves (C17) -/
+
+/-- request `r` is in the tracker of the live connection `id` -/
+def Tracked (s : RState) (id : Nat) (r : DataRequest) : Prop :=
+  ∃ c, getConn s id = some c ∧ r ∈ c.tracker.requests
+
+theorem tryReady_requests {t t' : Tracker} {r : SchedReason} {w : Bool} (h : t.tryReady r = some (t', w)) :
+    t'.requests = t.requests := by
+  unfold Tracker.tryReady at h
+  split at h
+  · simp only [Option.some.injEq, Prod.mk.injEq] at h; obtain ⟨rfl, _⟩ := h; rfl
+  · split at h <;> (split at h <;> simp only [Option.some.injEq, Prod.mk.injEq, reduceCtorEq] at h) <;>
+      (obtain ⟨rfl, _⟩ := h; rfl)
+
+theorem track_tracked_mono {s s' : RState} {id : Nat} {r : DataRequest} (h : track s id r = .ok s')
+    {j : Nat} {q : DataRequest} (hq : Tracked s j q) : Tracked s' j q := by
+  unfold track at h
+  split at h
+  · simp at h
+  · rename_i c hc
+    simp only [Except.ok.injEq] at h; subst h
+    obtain ⟨cj, gj, mj⟩ := hq
+    by_cases hj : j = id
+    · subst hj
+      rw [hc] at gj; cases gj
+      exact ⟨_, getConn_setConn_same _ _ _ (getConn_lt hc), List.mem_append_left _ mj⟩
+    · exact ⟨cj, by rw [getConn_setConn_ne _ _ _ _ hj]; exact gj, mj⟩
+
+theorem track_tracked {s s' : RState} {id : Nat} {r : DataRequest} (h : track s id r = .ok s') :
+    Tracked s' id r := by
+  unfold track at h
+  split at h
+  · simp at h
+  · rename_i c hc
+    simp only [Except.ok.injEq] at h; subst h
+    exact ⟨_, getConn_setConn_same _ _ _ (getConn_lt hc), by simp⟩
+
+theorem reschedule_tracked_mono {s s' : RState} {id : Nat} {r : SchedReason} (h : reschedule s id r = .ok s')
+    {j : Nat} {q : DataRequest} (hq : Tracked s j q) : Tracked s' j q := by
+  unfold reschedule at h
+  split at h
+  · simp at h
+  · rename_i c hc
+    split at h
+    · simp at h
+    · rename_i t woke htr
+      simp only [Except.ok.injEq] at h; subst h
+      have key : Tracked (setConn s id { c with tracker := t }) j q := by
+        obtain ⟨cj, gj, mj⟩ := hq
+        by_cases hj : j = id
+        · subst hj
+          rw [hc] at gj; cases gj
+          exact ⟨_, getConn_setConn_same _ _ _ (getConn_lt hc), by
+            show q ∈ t.requests; rw [tryReady_requests htr]; exact mj⟩
+        · exact ⟨cj, by rw [getConn_setConn_ne _ _ _ _ hj]; exact gj, mj⟩
+      split
+      · exact key
+      · exact key
+
+theorem track_datalog {s s' : RState} {id : Nat} {r : DataRequest} (h : track s id r = .ok s') :
+    s'.datalog = s.datalog := by
+  unfold track at h
+  split at h
+  · simp at h
+  · simp only [Except.ok.injEq] at h; subst h; rfl
+
+theorem reschedule_datalog {s s' : RState} {id : Nat} {r : SchedReason} (h : reschedule s id r = .ok s') :
+    s'.datalog = s.datalog := by
+  unfold reschedule at h
+  split at h
+  · simp at h
+  · split at h
+    · simp at h
+    · simp only [Except.ok.injEq] at h; subst h; split <;> rfl
+
+/-- `drainNotifications`: every request of the list ends up in the tracker of its connection, which
+    is then not `Paused(Caughtup)` (ready, or waiting for the link / an ack); nothing already
+    tracked is lost; the filter logs and their waiter lists are untouched -/
+theorem drainNotifications_spec : ∀ (ns : List (Nat × DataRequest)) {s s' : RState},
+    drainNotifications s ns = .ok s' →
+    (∀ w ∈ ns, Tracked s' w.1 w.2 ∧ NotCaughtup s' w.1) ∧
+    (∀ j q, Tracked s j q → Tracked s' j q) ∧ (∀ j, NotCaughtup s j → NotCaughtup s' j) ∧
+    s'.datalog = s.datalog
+  | [], s, s', h => by
+    simp only [drainNotifications, Except.ok.injEq] at h; subst h
+    exact ⟨fun w hw => by simp at hw, fun _ _ h => h, fun _ h => h, rfl⟩
+  | (id, r) :: rest, s, s', h => by
+    simp only [drainNotifications] at h
+    split at h
+    · simp at h
+    · rename_i s1 h1
+      split at h
+      · simp at h
+      · rename_i s2 h2
+        obtain ⟨a, b, c, d⟩ := drainNotifications_spec rest h
+        refine ⟨fun w hw => ?_, fun j q hq => b j q (reschedule_tracked_mono h2 (track_tracked_mono h1 hq)),
+          fun j hn => c j (reschedule_notCaughtup j h2 (track_notCaughtup j h1 hn)),
+          by rw [d, reschedule_datalog h2, track_datalog h1]⟩
+        rcases List.mem_cons.mp hw with rfl | hw
+        · exact ⟨b _ _ (reschedule_tracked_mono h2 (track_tracked h1)), c _ (reschedule_freshData_status h2)⟩
+        · exact a w hw
+
+/-- `wake_parked` (the loop over the sorted logs): every request parked on one of the logs is back
+    in the tracker of its connection, which is not `Paused(Caughtup)` afterwards; the waiter lists
+    of these logs are empty, those of the other logs unchanged; nothing tracked is lost -/
+theorem wakeParkedSorted_spec : ∀ (logs : List Nat) {s s' : RState}, wakeParkedSorted s logs = .ok s' →
+    (∀ i ∈ logs, ∀ fd, s.datalog.native[i]? = some fd → ∀ w ∈ fd.waiters, Tracked s' w.1 w.2 ∧ NotCaughtup s' w.1) ∧
+    (∀ (i : Nat) fd, s.datalog.native[i]? = some fd →
+        ∃ fd', s'.datalog.native[i]? = some fd' ∧ fd'.waiters = (if i ∈ logs then [] else fd.waiters)) ∧
+    (∀ j q, Tracked s j q → Tracked s' j q) ∧ (∀ j, NotCaughtup s j → NotCaughtup s' j)
+  | [], s, s', h => by
+    simp only [wakeParkedSorted, Except.ok.injEq] at h; subst h
+    exact ⟨fun i hi => by simp at hi, fun i fd hfd => ⟨fd, hfd, by simp⟩, fun _ _ h => h, fun _ h => h⟩
+  | i :: rest, s, s', h => by
+    rw [wakeParkedSorted_cons] at h
+    split at h
+    · rename_i hnone
+      obtain ⟨a, b, c, d⟩ := wakeParkedSorted_spec rest h
+      refine ⟨fun j hj fd hfd => ?_, fun j fd hfd => ?_, c, d⟩
+      · rcases List.mem_cons.mp hj with rfl | hj
+        · rw [hnone] at hfd; simp at hfd
+        · exact a j hj fd hfd
+      · obtain ⟨fd', h1, h2⟩ := b j fd hfd
+        refine ⟨fd', h1, ?_⟩
+        have : j ≠ i := fun e => by subst e; rw [hnone] at hfd; simp at hfd
+        simp only [List.mem_cons, this, false_or]; exact h2
+    · rename_i fd0 hfd0
+      split at h
+      · simp at h
+      · rename_i s2 h2
+        obtain ⟨da, db, dc, dd⟩ := drainNotifications_spec fd0.waiters h2
+        obtain ⟨a, b, c, d⟩ := wakeParkedSorted_spec rest h
+        have hlt : i < s.datalog.native.length := by
+          by_cases hl : i < s.datalog.native.length
+          · exact hl
+          · rw [List.getElem?_eq_none (by omega)] at hfd0; simp at hfd0
+        have hnat : ∀ j : Nat, s2.datalog.native[j]? =
+            if j = i then some { fd0 with waiters := [] } else s.datalog.native[j]? := fun j => by
+          rw [dd]
+          show (s.datalog.native.set i _)[j]? = _
+          rw [List.getElem?_set]
+          by_cases hji : i = j
+          · subst hji; simp [hlt]
+          · have : ¬ j = i := fun e => hji e.symm
+            simp [hji, this]
+        have tr1 : ∀ j q, Tracked s j q → Tracked (clearWaiters s i fd0) j q := fun _ _ h => h
+        have nc1 : ∀ j, NotCaughtup s j → NotCaughtup (clearWaiters s i fd0) j := fun _ h => h
+        refine ⟨fun j hj fd hfd w hw => ?_, fun j fd hfd => ?_,
+          fun j q hq => c j q (db j q (tr1 j q hq)), fun j hn => d j (dc j (nc1 j hn))⟩
+        · by_cases hji : j = i
+          · subst hji
+            rw [hfd0] at hfd; cases hfd
+            have := da w hw
+            exact ⟨c _ _ this.1, d _ this.2⟩
+          · have hj' : j ∈ rest := by
+              rcases List.mem_cons.mp hj with e | e
+              · exact absurd e hji
+              · exact e
+            have : s2.datalog.native[j]? = some fd := by rw [hnat]; simp [hji, hfd]
+            exact a j hj' fd this w hw
+        · by_cases hji : j = i
+          · subst hji
+            rw [hfd0] at hfd; cases hfd
+            obtain ⟨fd', h1, h2'⟩ := b j { fd0 with waiters := [] } (by rw [hnat]; simp)
+            refine ⟨fd', h1, ?_⟩
+            simp only [List.mem_cons, true_or, if_true]
+            rw [h2']; split <;> rfl
+          · obtain ⟨fd', h1, h2'⟩ := b j fd (by rw [hnat]; simp [hji, hfd])
+            refine ⟨fd', h1, ?_⟩
+            simp only [List.mem_cons, hji, false_or]; exact h2'
+
+
+/-- `wake_parked(logs)` -/
+theorem wakeParked_spec {logs : List Nat} {s s' : RState} (h : wakeParked s logs = .ok s') :
+    (∀ i ∈ logs, ∀ fd, s.datalog.native[i]? = some fd → ∀ w ∈ fd.waiters, Tracked s' w.1 w.2 ∧ NotCaughtup s' w.1) ∧
+    (∀ (i : Nat) fd, s.datalog.native[i]? = some fd →
+        ∃ fd', s'.datalog.native[i]? = some fd' ∧ fd'.waiters = (if i ∈ logs then [] else fd.waiters)) ∧
+    (∀ j q, Tracked s j q → Tracked s' j q) ∧ (∀ j, NotCaughtup s j → NotCaughtup s' j) := by
+  have := wakeParkedSorted_spec _ h
+  simpa only [List.mem_eraseDups, List.mem_mergeSort] using this
 
 end Router
